@@ -594,6 +594,26 @@ def compare_program(chk, prog, res, where, mres, full):
     return mres[1]
 
 
+def tree_case_from_state(ss, rd, files, cs, dg):
+    """the case for ed_sign_tree (run_C10 op 1) from a sign state computed by the model of the editing operations
+    (run_C10 op 2): [1, edit, dkeys, children, keys]; lengths and digest identities of the written files from files"""
+    def fd(name):
+        if files is None or name not in files:
+            return [0, 0]
+        raw = files[name].encode("utf-8")
+        return [len(raw), dg.of_bytes(raw)]
+    def flat(nodes):
+        out = []
+        for n in nodes:
+            out.append(n)
+            out += flat(n[5])
+        return out
+    edit, dkeys, children, keys = ss[1], ss[2], ss[3], ss[4]
+    tbl = fd(role_file_name("targets", edit[1], cs)) + fd(role_file_name("snapshot", edit[2], cs)) + fd("timestamp.json") \
+        + [[fd(role_file_name(C.b2s(n[0][0]), n[1], cs)) for n in flat(children)]]
+    return [10, 1, root_tree_of(rd), edit, dkeys, children, keys, tbl]
+
+
 class Unabstractable(Exception):
     pass
 
